@@ -682,9 +682,10 @@ pub fn gen_sync(rng: &mut Rng) -> [u8; 16] {
 }
 
 pub fn gen_user_meta(rng: &mut Rng) -> Vec<(String, Vec<u8>)> {
-	let n = match rng.below(4) {
-		0 | 1 => 0,
-		2 => 1,
+	let n = match rng.below(40) {
+		0..=19 => 0,
+		20..=29 => 1,
+		39 => 40 + rng.usize(300),
 		_ => 1 + rng.usize(4),
 	};
 	let mut out: Vec<(String, Vec<u8>)> = vec![];
@@ -696,9 +697,14 @@ pub fn gen_user_meta(rng: &mut Rng) -> Vec<(String, Vec<u8>)> {
 			// (keys starting with "avro." are reserved by the specification: never generated)
 			_ => format!("x-avro.custom{i}"),
 		};
-		let v = match rng.below(4) {
+		let v = match rng.below(if n > 8 { 4 } else { 6 }) {
 			0 => vec![],
 			1 => vec![0xff, 0xfe, 0x00, 0x80],
+			4 => {
+				let n = *rng.pick(&[63usize, 64, 127, 128, 8191, 8192, 8193, 20_000]);
+				rng.bytes(n)
+			}
+			5 => "valeur \u{e9}\u{20ac} \"q\" \\".as_bytes().to_vec(),
 			_ => {
 				let n = rng.usize(20);
 				rng.bytes(n)
